@@ -1,22 +1,24 @@
 (** The executable instance of the driver model used by the correspondence: all carriers are
     [unit] (the schedule, the label trace, the record list and the interrupt behaviour do not
-    depend on what the kernels compute - that is what the theorems say). *)
+    depend on what the kernels compute - that is what the theorems say), except the RF modulation
+    records, which are numbered ([tMd = Z]: record j is the one precomputed for step j) so that the
+    model says which record lands in which flushed chunk. *)
 From Coq Require Import List ZArith Bool.
-From Inovesa Require Import Model.Driver Gen.Gen_MainLoop.
+From Inovesa Require Import Model.Driver Model.Setup Gen.Gen_MainLoop.
 Import ListNotations.
 Local Open Scope Z_scope.
 
 Definition unitK : kern :=
-  mkkern unit unit unit unit unit unit unit unit unit unit unit unit
+  mkkern unit unit unit unit unit unit unit unit unit Z unit unit
     (fun _ => tt) (fun _ => tt) (fun _ => tt) (fun _ _ => tt) (fun _ _ => tt) (fun _ _ => tt)
     (fun _ _ => tt) (fun _ _ => tt) (fun _ _ => tt) (fun _ _ => tt) (fun _ => tt)
-    (fun _ _ => tt) (fun _ _ => tt) (fun _ => tt) (fun _ => tt) (fun _ _ _ _ _ _ => (tt, tt)) tt.
+    (fun _ _ => tt) (fun _ _ => tt) (fun _ => tt) (fun _ => tt) (fun _ _ _ _ _ _ => (tt, tt)) (-1).
 
 (** state at "Starting the simulation.": [pc0] hook points were passed during set-up, the flag is
-    set iff one of them was signalled; the modulation queue holds [laststep] entries *)
+    set iff one of them was signalled; the modulation queue holds the [laststep] records 0, 1, ... *)
 Definition st0 (c : cfg) (at_ : Z) (pc0 : Z) : st unitK :=
-  mkst (K:=unitK) 0 0 tt tt tt tt tt tt tt tt tt tt tt tt (repeat tt (Z.to_nat (laststep c))) [] tt tt
-       ((0 <=? at_) && (at_ <? pc0)) pc0 [] [] None [].
+  mkst (K:=unitK) 0 0 tt tt tt tt tt tt tt tt tt tt tt tt (List.map Z.of_nat (seq 0 (Z.to_nat (laststep c)))) [] tt tt
+       ((0 <=? at_) && (at_ <? pc0)) pc0 [] [] None [] [] false.
 
 Inductive rkind := KPS | KDef | KCsr | KWake | KTracks | KRF | KPadded.
 Definition summary (r : rec unitK) : rkind * Z * Z :=
@@ -30,9 +32,79 @@ Definition summary (r : rec unitK) : rkind * Z * Z :=
   | RPadded _ => (KPadded, rstep r, 1)
   end.
 
+(** the flushed chunks of RF records: (step number of the flush, numbers of the records in it) *)
+Fixpoint rf_chunks (l : list (rec unitK)) : list (Z * list Z) :=
+  match l with
+  | [] => []
+  | r :: t => match rdata r with RRF x => (rstep r, x) :: rf_chunks t | _ => rf_chunks t end
+  end.
+
 Record outcome := mkout { o_trace : list (Z * Z); o_file : list (rkind * Z * Z); o_log : list msg;
-                          o_status : option Z; o_k : Z; o_abort : bool; o_pc : Z }.
+                          o_status : option Z; o_k : Z; o_abort : bool; o_pc : Z;
+                          o_rf : list (Z * list Z); o_pending : list Z }.
 
 Definition model_run (c : cfg) (at_ : Z) (rep : bool) (pc0 : Z) : outcome :=
   let s := run (hooksig at_ rep) c main_prog (st0 c at_ pc0) in
-  mkout (trace s) (List.map summary (file s)) (log s) (status s) (k s) (abort s) (pc s).
+  mkout (trace s) (List.map summary (file s)) (log s) (status s) (k s) (abort s) (pc s)
+        (rf_chunks (file s)) (past s).
+
+(** the whole program, set-up included (Model/Setup.v): the opaque statements do nothing and never
+    in this instance; [tl] lists the opaque conditions that are true, [xl] the opaque statements /
+    conditions that throw.  The point counter
+    starts at 0 when the SIGINT handler is installed; the flag is clear. *)
+Definition uenv (tl xl : list Z) : senv unitK :=
+  mksenv (fun _ s => s) (fun n => existsb (Z.eqb n) xl) (fun n => existsb (Z.eqb n) tl).
+
+Definition st_init (c : cfg) : st unitK :=
+  mkst (K:=unitK) 0 0 tt tt tt tt tt tt tt tt tt tt tt tt (List.map Z.of_nat (seq 0 (Z.to_nat (laststep c)))) [] tt tt
+       false 0 [] [] None [] [] false.
+
+Definition out_of (s : st unitK) : outcome :=
+  mkout (trace s) (List.map summary (file s)) (log s) (status s) (k s) (abort s) (pc s) (rf_chunks (file s)) (past s).
+
+(** (how the program ended: 0 ran to the end of main, 1 returned from the set-up, 2 uncaught exception; outcome) *)
+Definition model_run_full (c : cfg) (at_ : Z) (rep : bool) (tl xl : list Z) : Z * outcome :=
+  match full_run (hooksig at_ rep) (uenv tl xl) c main_setup main_prog (st_init c) with
+  | Finished s => (0, out_of s)
+  | Early s => (1, out_of s)
+  | Crashed s => (2, out_of s)
+  end.
+
+(** environments for the examples, computed from the skeleton (so that they do not depend on how
+    the translator numbers the opaque statements): the opaque conditions that hold on the first
+    path (depth first, `true` tried first, no exception) on which the set-up is left normally ... *)
+Fixpoint norm_paths (b : sblk) (acc : list Z) : list (list Z) :=
+  match b with
+  | SDone => [acc]
+  | SCall _ r | SSetAbort r | SOpq _ r => norm_paths r acc
+  | SReturn _ => []
+  | SIf (CGuard _) t e r => flat_map (norm_paths r) (norm_paths t acc ++ norm_paths e acc)
+  | SIf (COpq n) t e r => flat_map (norm_paths r) (norm_paths t (n :: acc) ++ norm_paths e acc)
+  | STry t h r => flat_map (norm_paths r) (norm_paths t acc)
+  end.
+Definition norm_env (b : sblk) : list Z := match norm_paths b [] with p :: _ => p | [] => [] end.
+
+(** ... and the first opaque statement inside a `try` whose handler sets the flag *)
+Fixpoint has_setabort (b : sblk) : bool :=
+  match b with
+  | SDone | SReturn _ => false
+  | SSetAbort _ => true
+  | SCall _ r | SOpq _ r => has_setabort r
+  | SIf _ t e r => has_setabort t || has_setabort e || has_setabort r
+  | STry t h r => has_setabort t || has_setabort h || has_setabort r
+  end.
+Fixpoint first_opq (b : sblk) : option Z :=
+  match b with
+  | SOpq n _ => Some n
+  | SCall _ r | SSetAbort r => first_opq r
+  | _ => None
+  end.
+Fixpoint abort_try_opq (b : sblk) : option Z :=
+  match b with
+  | SDone | SReturn _ => None
+  | SCall _ r | SSetAbort r | SOpq _ r => abort_try_opq r
+  | SIf _ t e r => match abort_try_opq t with Some n => Some n | None =>
+                   match abort_try_opq e with Some n => Some n | None => abort_try_opq r end end
+  | STry t h r => if has_setabort h then first_opq t else
+                  match abort_try_opq t with Some n => Some n | None => abort_try_opq r end
+  end.
